@@ -397,6 +397,11 @@ func c08Late304(t *rapid.T, sc *world.Scenario, u string) *world.Scenario {
 	// an end-to-end reload replaces the entry while the 304 is in flight
 	reload := &world.Req{Method: "GET", URL: u, Header: [][2]string{H("Cache-Control", Pick(t, "reload", "no-cache", "max-age=0"))}}
 	repl := mk("r2", 600, Pct(t, "replswr", 30))
+	if Pct(t, "replbare", 30) {
+		// the replacement carries no validator at all, and may demand validation: the late 304
+		// is about the representation it replaced, and changes nothing of it
+		repl.Header = [][2]string{H("Date", "$T+0"), H("Cache-Control", Pick(t, "replbarecc", "max-age=600", "no-cache", "max-age=600, no-cache", "max-age=0, must-revalidate")), H("X-Gen", "g$S")}
+	}
 	reload.Uncond, reload.Cond = repl, &repl
 	sc.Steps = append(sc.Steps, ReqStep(reload), SleepStep(Pick(t, "s1", int64(4), 5, 10)))
 	for i := 0; i < rapid.IntRange(1, 2).Draw(t, "after"); i++ {
